@@ -38,6 +38,9 @@ import (
 //	forms     random programs (props.Gen) executed with a form-choosing builder
 //	          (term.FormBuilder: a random form at every node); the model renders the
 //	          form-free term; Compare = CompareAll.
+//	writers   the writer handed to Render / RenderWithFile (c14_writers.go): 60 quick / 1500
+//	          thorough cases of 2-4 fragments through the full matrix sink x earlier content x
+//	          entry point, and sequences of fragments into one writer.
 type c14 struct{}
 
 func init() { Register(c14{}) }
@@ -119,7 +122,12 @@ func c14EntryPoints(gs, rd, rwf c14Res) string {
 }
 
 func c14CheckEntryPoints(x c14Renderer) string {
-	return c14EntryPoints(c14GoString(x), c14Render(x), c14RenderWithFile(x))
+	gs := c14GoString(x)
+	if e := c14EntryPoints(gs, c14Render(x), c14RenderWithFile(x)); e != "" {
+		return e
+	}
+	// the same entry points into writers that are not fresh buffers (c14_writers.go)
+	return c14HashedSinks(x, gs)
 }
 
 // c14SameAsObs compares a Render result with what the history executor observed for the
@@ -625,6 +633,7 @@ func (c14) Generate(r *rand.Rand, t string) []*Case {
 		h = append(h, hist.Op{Kind: "imports", F: 0})
 		out = append(out, c14FormsCase(h, r.Int63()))
 	}
+	out = append(out, c14WritersCases(r, tier(t, 60, 1500))...)
 	return out
 }
 
@@ -653,6 +662,8 @@ func (c14) Oracle(c *Case, got []hist.Obs) string {
 		return c14CheckConstruct(c.Meta["name"].(string), c.Meta["seed"].(int64), got, c.Hist)
 	case "forms":
 		return c14FormsOracle(c, got)
+	case "writers":
+		return c14WritersOracle(c, got)
 	}
 	return "C14: case without kind"
 }
@@ -1083,7 +1094,6 @@ func (c14) Regressions() []*Case {
 	}
 	return out
 }
-
 
 // c14FileGoString: File.GoString is File.Render into a buffer, panicking with the error when
 // rendering fails (clause "GoString, Render ... agree", for the File entry point).
